@@ -42,3 +42,30 @@ Theorem C05_history_independent : forall inp s1 s2,
   st_scores s1 = st_scores s2 /\ st_total s1 = st_total s2.
 Proof. exact C05_history_independent_proof. Qed.
 Print Assumptions C05_history_independent.
+
+(* early arrival, late arrival, min stops, stop balance: non-vacuity (mt_inp,
+   mt_s2 in Proofs/Engine_spec.v).  Stops 0 and 1 with own duration 10; stop 0
+   has target arrival 500, stop 1 target arrival 100, both early penalty 2 and
+   late penalty 3.  Two vehicles with activation penalty 1000, min_stops 3 and
+   min_stops penalty 10; 60 s of travel between different stops.  Factors:
+   activation 1, travel 1, vehicles duration 1, unplanned 1, early 2, late 3,
+   min stops 5, stop balance 7.  Two moves put stops 0 and 1 on vehicle 0,
+   vehicle 1 stays empty.  Stop 0 is reached 440 s early, stop 1 30 s late;
+   vehicle 0 misses one stop of its minimum, the empty vehicle 1 costs
+   nothing; the largest vehicle has two stops.  The eight terms in factory
+   order: activation, travel duration, vehicles duration, unplanned, early
+   arrival, late arrival, min stops, stop balance. *)
+Theorem C05_more_terms_example :
+  wf_input mt_inp /\ reachable mt_inp mt_s2 /\
+  map route_stops (st_routes mt_s2) = [[2; 0; 1; 3]; [4; 5]]%nat /\
+  map c_arrival (get_route mt_s2 0) = [0; 60; 130; 200] /\
+  stop_target mt_inp 0 = Some 500 /\ stop_target mt_inp 1 = Some 100 /\
+  obj_early mt_inp mt_s2 = 2 * (500 - 60) /\
+  obj_late mt_inp mt_s2 = 3 * (130 - 100) /\
+  obj_min_stops mt_inp mt_s2 = 10 * (3 - 2) * (3 - 2) /\
+  obj_stop_balance mt_inp mt_s2 = 2 /\
+  score_terms mt_inp mt_s2 = [1000; 240; 260; 0; 1760; 270; 50; 14] /\
+  st_scores mt_s2 = [1000; 240; 260; 0; 1760; 270; 50; 14] /\
+  st_total mt_s2 = 3594.
+Proof. exact C05_more_terms_example_proof. Qed.
+Print Assumptions C05_more_terms_example.
